@@ -443,6 +443,14 @@ func (c *Concretizer) buildRequest(o *ROp, variant int) ([]byte, int) {
 
 	if o.KeyNonce && o.Wf != "nonce" {
 		jwk.Nonce = b64(seedBytes(c.seed, "nonce/"+signer.Name, 16))
+
+		// the re-used commitment is that of the key as signed, nonce included
+		switch o.Wf {
+		case "reuse":
+			recCommit = refCommitment(jwk, alg)
+		case "reuse_other_alg":
+			recCommit = refCommitment(jwk, sha2_256+sha2_512-alg)
+		}
 	}
 
 	keyName := "updateKey"
